@@ -117,6 +117,11 @@ def run_check(pm, prop, tier, verbose):
     solver_wall = time.time() - ts
     if tier == "thorough" and allobs:
         recheck_with_cvc5(allobs, notes, checker_errors)
+    selftest_reports = []
+    if tier == "thorough" and getattr(pm, "MUTATIONS", None):
+        from vf import selftest
+        selftest_reports, errs = selftest.run_mutations(pm.MUTATIONS)
+        checker_errors.extend(errs)
 
     funcs = []
     by_backend = {}
@@ -178,7 +183,18 @@ def run_check(pm, prop, tier, verbose):
         status = "refuted" if any(x[2].status == "refuted" for x in items) else "unknown"
         k = known_for_obligation(known, prop, group)
         witness = None
-        if hasattr(pm, "witness_for"):
+        if k and hasattr(pm, "witness_for") and len(items) > 1:
+            # a recorded finding covers this obligation: every failing PATH must be explained by it separately,
+            # so that a different violation of the same obligation is still reported
+            for it in items:
+                try:
+                    w = pm.witness_for(r.contract, it[2], [it])
+                except Exception:  # noqa
+                    w = None
+                if w is not None and not known_for_failure(known, prop, w):
+                    witness = w
+                    break
+        if witness is None and hasattr(pm, "witness_for"):
             try:
                 witness = pm.witness_for(r.contract, o, items)
             except Exception as e:  # noqa
@@ -270,6 +286,7 @@ def run_check(pm, prop, tier, verbose):
         "known_findings_reported": sorted({k for k, _ in known_lines}),
         "obligations_refuted_by_recorded_findings": known_refuted,
         "notes": notes,
+        "self_test_mutations": selftest_reports,
         "exhaustive": False,
     }
     if not all_proved and level == "proof":
